@@ -44,7 +44,7 @@ CHECKS = {
    design="6 C17"),
  "C04": dict(
    text="Bounded exhaustive symbolic check of the real FKMNonlinearDetector (first and second HCM pass incl. the junction logic, find_turns, sample tail, recorder) on symbolic integer load sequences against the rainflow cycles of the periodic reversal sequence started at its largest absolute load: multiset of second-pass (loads_min, loads_max) == oracle cycles, every second-pass hysteresis closed, half-counted hystereses only in the first pass and symmetric about zero, and invariance of the second-pass cycles under one inserted non-reversal sample at every position incl. the end/junction.",
-   note="Bound: sequence length 2..4 (quick) / 2..6 (thorough); refinement base length 2..3 / 2..4. Integer loads (tolerance comparisons exact, rewritten to integer arithmetic). Linear stub law (counting depends on loads only). One open known finding (known_findings.json: C04-deferred_reversal_closes_loop) is excluded by its region predicate; the junction defect outside it was repaired in /repo (b090510).",
+   note="Bound: sequence length 2..5 (quick) / 2..6 (thorough); refinement base length 2..3 / 2..4. Integer loads (tolerance comparisons exact, rewritten to integer arithmetic). Linear stub law (counting depends on loads only). One open known finding (known_findings.json: C04-deferred_reversal_closes_loop) is excluded by its region predicate; the junction defect outside it was repaired in /repo (b090510).",
    design="6 C04"),
  "C05": dict(
    text="Bounded exhaustive symbolic check of the HCM stress-strain bookkeeping of the real FKMNonlinearDetector / FKMNonlinearRecorder against an independent scalar implementation of the HCM case analysis (primary branch, Masing secondary branches from the reversal point, Memory 1-3, running strain extremes, pass numbers): every column of recorder.collective and the visited strain values; multi-point series (non-contiguous node ids, proportional loads) give every point its single-point rows; negated loads mirror all stresses and strains.",
